@@ -14,6 +14,7 @@ REQ_PROPS = ["GV.Props.Props_C02"]
 REQ_RUN = ["GV.Mvcc.Run"]
 BINS = ["c01"]
 CLASSES = {1: "C02-K1", 2: "C02-K2", 4: "C02-K4", 5: "C02-K5"}
+TAG = base.TAG
 
 
 def dumps_of(c):
@@ -25,14 +26,14 @@ def run(tier, seed, replay_file=None):
     chk = gv.Check(PROP, tier, seed, level="proof")
     base.load_known_fallback(chk, PROP)
     proof = gv.proof_status(PROP, REQ_PROPS)
-    ncases = 130 if tier == "quick" else 2400
+    ncases = 300 if tier == "quick" else 3000
     ok, out, binp = gv.cargo_build("c01")
     if not ok:
         chk.violation("build", {"what": "the harness no longer builds against /repo's working tree", "log": out[-3000:],
                                 "broken": ["correspondence C02: harness build failed"]}, no_input=True)
         return chk.finish(proof)
     rc, so, se, cases, dt = gv.run_harness(binp, ["--seed", seed, "--cases", ncases, "--tier", tier, "--prop", "c02"],
-                                           os.path.join(gv.BUILD, "out", "c02.jsonl"))
+                                           os.path.join(gv.BUILD, "out", "c02%s.jsonl" % TAG))
     if rc != 0:
         chk.violation("crash", {"what": "the harness crashed", "stderr": se, "broken": ["harness exit %d" % rc]}, no_input=True)
         return chk.finish(proof)
@@ -43,19 +44,20 @@ def run(tier, seed, replay_file=None):
         return chk.finish(proof)
     for c in cases:
         c["_args"] = base.split_term(c) + " " + dumps_of(c)
-    vals = gv.coq_eval(PROP + "_oracle", REQ_RUN,
-                       ["(chk_hist %s, c02_fails %s, c02_checked %s)" % (base.split_term(c), c["_args"], c["_args"]) for c in cases], shard=30)
+    # one evaluation per history (Run.v c02_report)
+    vals = gv.coq_eval(PROP + "_oracle" + TAG, REQ_RUN, ["c02_report %s" % c["_args"] for c in cases], shard=8)
     checked = 0
-    lists = []
+    lists, kvals = [], []
     for c, v in zip(cases, vals):
-        m = re.match(r"\((true|false), (\[.*\]), (\d+)\)$", v)
+        m = re.match(r"\((true|false), (\[.*?\]), (\d+), (\[.*\])\)$", v)
         if not m:
             raise RuntimeError("unexpected oracle value: %s" % v[:200])
         c["coq"] = m.group(1)       # the evaluated correspondence term (gv.standard_flow re-reads the literal)
         lists.append(m.group(2))
         c["checked_tx"] = int(m.group(3))
         checked += c["checked_tx"]
-    extra = base.derive_failures(cases, lists, "c02_k", CLASSES, "atomic_ok (dump pair)")
+        kvals.append(dict(zip([1, 2, 4, 5], base.parse_bools(m.group(4)))))
+    extra = base.derive_failures(cases, lists, kvals, CLASSES, "atomic_ok (dump pair)")
     for c in cases:
         if c["checked_tx"] == 0 and c["oracle"] == "ok":
             c["oracle"] = "na"
@@ -68,9 +70,10 @@ def run(tier, seed, replay_file=None):
     chk.coverage["steps"] = sum(len(c["in"].split("; ")) for c in cases)
     chk.coverage["rule"] = ("starting graph (fixture + 0-2 committed transactions), then 1-2 transactions of 2-5 mutations each (other "
                             "sessions only read meanwhile), ended by commit / rollback / dropping the session, each enclosed by two dumps = "
-                            "every node (labels, properties), edge, label scan, raw label index, raw property column, projection, unlabelled "
-                            "scan, count, neighbour lists, degrees, expands (typed / untyped), triples, database counters, read by an observer "
-                            "session; a history is non-trivial when a transaction has >= 2 mutations of different kinds, ends by commit or "
+                            "every node (labels, properties, single properties), edge, label scan, label count, raw label index, raw property "
+                            "column, projection, unlabelled scan, count, neighbour lists, degrees, expands (typed / untyped, outgoing / incoming / "
+                            "undirected), triples (SPARQL and RdfStore::find_with_pending), database counters, GrafeoDB::execute_cypher_with_params, "
+                            "read by an observer session through randomly chosen entry points (GQL, Cypher, parameterised, Gremlin, GrafeoDB::execute*); a history is non-trivial when a transaction has >= 2 mutations of different kinds, ends by commit or "
                             "rollback and is followed by a dump; distinct = distinct operation list")
     chk.coverage["samples"] = [{"kind": c["k"], "input": c["in"][:300], "impl": c["impl"][:200]} for c in cases[6:9]]
     chk.coverage["trusted_base"] = [t.replace("checks/c01.py", "checks/c01.py, checks/c02.py") for t in base.TRUSTED]
